@@ -63,6 +63,7 @@ type groupState struct {
 	commits     map[string][]*commitCall // client -> calls
 	wireCmt     []wireCommit
 	topics      []string
+	subs        map[string]map[string]bool // member -> topics it subscribes to (all of gs.topics unless the plan splits subscriptions; a purge removes one)
 	partsOf     map[string]int32
 	nparts      int32
 	mode        int64
@@ -119,6 +120,39 @@ func balancerOpt(mode int64) kgo.Opt {
 	return kgo.Balancers(kgo.CooperativeStickyBalancer())
 }
 
+// subscription: with knob sub_split every slot but the first leaves out the
+// first topic, so that a topic one member purges can still be subscribed to
+// by another.
+func (gs *groupState) subscription(name string, slot int) []string {
+	ts := gs.topics
+	if gs.s.P.Knob("sub_split", 0) != 0 && slot >= 1 && len(ts) > 1 {
+		ts = ts[1:]
+	}
+	m := map[string]bool{}
+	for _, t := range ts {
+		m[t] = true
+	}
+	gs.mu.Lock()
+	if gs.subs == nil {
+		gs.subs = map[string]map[string]bool{}
+	}
+	gs.subs[name] = m
+	gs.mu.Unlock()
+	return append([]string(nil), ts...)
+}
+
+func (gs *groupState) subscribers(t string, live []string) []string {
+	gs.mu.Lock()
+	defer gs.mu.Unlock()
+	var out []string
+	for _, n := range live {
+		if gs.subs[n][t] {
+			out = append(out, n)
+		}
+	}
+	return out
+}
+
 func (gs *groupState) newMember(slot, inc int) *gmember {
 	s := gs.s
 	p := s.P
@@ -131,7 +165,7 @@ func (gs *groupState) newMember(slot, inc int) *gmember {
 	opts := []kgo.Opt{
 		kgo.WithContext(ctx),
 		kgo.ConsumerGroup("g"),
-		kgo.ConsumeTopics(gs.topics...),
+		kgo.ConsumeTopics(gs.subscription(name, slot)...),
 		kgo.ConsumeResetOffset(kgo.NewOffset().AtStart()),
 		kgo.FetchMaxWait(time.Duration(p.Knob("fetch_max_wait_ms", 500)) * time.Millisecond),
 		kgo.SessionTimeout(time.Duration(p.Knob("session_ms", 30000)) * time.Millisecond),
@@ -533,6 +567,17 @@ func scenGroup(s *Sim) {
 					}
 					s.Probe("member_" + op.Kind)
 				}
+			case "purge":
+				// the member stops consuming one topic (the others keep it)
+				if m := live[int(op.A)]; m != nil && len(gs.topics) > 1 {
+					t := gs.topics[len(gs.topics)-1]
+					m.cl.PurgeTopicsFromConsuming(t)
+					gs.mu.Lock()
+					delete(gs.subs[m.name], t)
+					gs.mu.Unlock()
+					s.Probe("member_purged_topic")
+					s.Logf("CHURN %s purges %s", m.name, t)
+				}
 			case "restart":
 				if m := live[int(op.A)]; m != nil {
 					delete(live, int(op.A))
@@ -604,7 +649,12 @@ func scenGroup(s *Sim) {
 	if !gs.defaults {
 		conv := s.WaitFor(bound, 500*time.Millisecond, func() bool { return gs.unowned(liveNames) == "" })
 		if !conv && gs.fencedAt == "" {
-			s.Violf("C07/convergence/unowned", "membership stable for %v on a healthy cluster, yet: %s", bound, gs.unowned(liveNames))
+			cls := "C07/convergence/unowned"
+			if p.Prop == "C27" && p.Knob("c27_purge", 0) != 0 {
+				// the purge plans inject nothing that fences or impersonates a member
+				cls = "C27/convergence/unowned"
+			}
+			s.Violf(cls, "membership stable for %v on a healthy cluster, yet: %s", bound, gs.unowned(liveNames))
 		}
 	}
 	cbound := bound
@@ -644,10 +694,14 @@ func (gs *groupState) unowned(live []string) string {
 		isLive[n] = true
 	}
 	for _, t := range gs.topics {
+		subs := gs.subscribers(t, live)
+		if len(subs) == 0 {
+			continue // nobody subscribes to it (any more)
+		}
 		for q := int32(0); q < gs.partsOf[t]; q++ {
 			o := owner[tpKey{t, q}]
 			if o == "" {
-				return fmt.Sprintf("%s/%d is owned by nobody (live members %v)", t, q, live)
+				return fmt.Sprintf("%s/%d is owned by nobody (live members %v, subscribed to %s: %v)", t, q, live, t, subs)
 			}
 			if !isLive[o] {
 				return fmt.Sprintf("%s/%d is owned by %s which is not a live member", t, q, o)
